@@ -27,7 +27,7 @@ def _mod(name, **attrs):
     return m
 
 
-def make_pkg(extra_env=None, extra_builtins=None, record=None):
+def make_pkg(extra_env=None, extra_builtins=None, record=None, literal_overrides=None):
     from . import vfs
     tq = _mod('tqdm', tqdm=_Tqdm)
     mts = _mod('mtscomp', Reader=vfs.MtscompReaderStub)
@@ -51,7 +51,7 @@ def make_pkg(extra_env=None, extra_builtins=None, record=None):
     eb = {'open': vfs.vopen}
     if extra_builtins:
         eb.update(extra_builtins)
-    return SymPackage(env, eb, record=record)
+    return SymPackage(env, eb, record=record, literal_overrides=literal_overrides)
 
 
 def symnp_block_diag(*arrs):
